@@ -334,6 +334,49 @@ def main():
         assert len(u) == 1
         if u != chr(c):
             assert ord("a") <= c <= ord("z") and ord(u) == c - 32
+    # ---- control structure read from the source text (ast): the order in which productions / decoders
+    # are tried and which exceptions each loop swallows.  The model was written for this structure;
+    # theorems in Props compare it with these tables, so a re-ordering in the code breaks an obligation.
+    import ast
+    def loops_of(path, cls, fn):
+        """for every `for x in (self.a, self.b, ...)` in cls.fn: (names, handler type names of the try inside)"""
+        tree = ast.parse(open(path).read())
+        out = []
+        for c in ast.walk(tree):
+            if isinstance(c, ast.ClassDef) and c.name == cls:
+                for f in c.body:
+                    if isinstance(f, ast.FunctionDef) and f.name == fn:
+                        for node in ast.walk(f):
+                            if isinstance(node, ast.For) and isinstance(node.iter, ast.Tuple):
+                                names = [e.attr for e in node.iter.elts if isinstance(e, ast.Attribute)]
+                                handlers = []
+                                for t in node.body:
+                                    if isinstance(t, ast.Try):
+                                        for h in t.handlers:
+                                            ty = h.type
+                                            if ty is None:
+                                                handlers.append("*")
+                                            elif isinstance(ty, ast.Tuple):
+                                                handlers.append("|".join(getattr(e, "id", "?") for e in ty.elts))
+                                            else:
+                                                handlers.append(getattr(ty, "id", "?"))
+                                out.append((names, handlers))
+        return out
+    def lstrs(l):
+        return "[" + ", ".join(json.dumps(x) for x in l) + "]"
+    src = os.path.join(repo, "pvl")
+    dec = loops_of(os.path.join(src, "decoder.py"), "PVLDecoder", "decode_simple_value")
+    mod = loops_of(os.path.join(src, "parser.py"), "PVLParser", "parse_module")
+    val = loops_of(os.path.join(src, "parser.py"), "PVLParser", "parse_value")
+    def one(l):
+        return l[0] if l else ([], [])
+    parts.append("/-- control structure read from the source with `ast` (see tools/extract.py) -/")
+    parts.append("def decodeCascade : List String := %s" % lstrs(one(dec)[0]))
+    parts.append("def decodeCascadeCatches : List String := %s" % lstrs(one(dec)[1]))
+    parts.append("def moduleProductions : List String := %s" % lstrs(one(mod)[0]))
+    parts.append("def moduleProductionCatches : List String := %s" % lstrs(one(mod)[1]))
+    parts.append("def valueProductions : List String := %s" % lstrs(one(val)[0]))
+    parts.append("def valueProductionCatches : List String := %s" % lstrs(one(val)[1]))
     parts.append("")
     parts.append("end Pvl.Gen")
     text = "\n".join(parts) + "\n"
